@@ -617,6 +617,13 @@ class C10Engine:
             try:
                 if k == "rejected_add_index":
                     real[op[1]].add_index(real[op[2]])
+                elif len(op) > 2 and op[2] == "other-db":
+                    # a contained table is offered to ANOTHER database that has to refuse it (name in use there)
+                    td = m[op[1]]
+                    other = C.Database()
+                    other.add(C.Table(td["name"], schema=td["schema"], columns=[C.Column("theirs", "int")]))
+                    real_t = real[op[1]]
+                    other.add(real_t)
                 else:
                     td = m[op[1]]
                     real[self.db].add(C.Table(td["name"], schema=td["schema"], columns=[C.Column("dup", "int")]))
@@ -806,7 +813,7 @@ def draw_op(rng: random.Random, eng: C10Engine) -> List[Any]:
             idxs = [i for t in tables for i in m[t]["idxs"]]
             if idxs and len(tables) > 1:
                 return ["rejected_add_index", rng.choice(tables), rng.choice(idxs)]
-            return ["rejected_add_table", rng.choice(tables)]
+            return ["rejected_add_table", rng.choice(tables)] + (["other-db"] if rng.random() < 0.5 else [])
         if rr < 0.3 and d["groups"]:
             g = rng.choice(d["groups"])
             if rng.random() < 0.5:
